@@ -2,6 +2,8 @@
 C11 -- V-parallel advection evaluates the interpolant at v - c*dt; boundary rule holds.
 (kernel level here; the grid-level step on all process grids is sub-check "grid", see pgv.sim)
 """
+import math
+
 import numpy as np
 from hypothesis import strategies as st
 
@@ -36,7 +38,8 @@ def line_cases(draw, tier):
         space = draw(gen.spline_space(max_degree=5, periodic=False, min_cells=1, max_cells=12, cubic_uniform=False))
     # a velocity-like domain
     nc = len(space["breaks"]) - 1
-    vmax = draw(st.sampled_from([7.32, 1.0, 5.0]))
+    # (the last two are non-round: the grid's end nodes, rounded to 15 decimals, then differ from the knots by an ulp)
+    vmax = draw(st.sampled_from([7.32, 1.0, 5.0, 5 * math.sqrt(2), math.pi]))
     b = np.array(space["breaks"])
     b = (b - b[0]) / (b[-1] - b[0]) * 2 * vmax - vmax
     b[0], b[-1] = -vmax, vmax
